@@ -2643,7 +2643,16 @@ func VerifConfigOrder(n int) {
 	verifapi.Restore(mark)
 	outOther := load(other)
 	verifapi.Reach("ran")
-	verifapi.Classify("C19/output-depends-on-config-file-layout/" + name)
+	// the class names the probe rows whose output differs, so that a second defect on a layout
+	// that already has a known one is a different class
+	rowsDiff := ""
+	for r := 1; r <= verifCountLines(probe); r++ {
+		if verifLine(outRef, r) != verifLine(outOther, r) {
+			rowsDiff += "-" + verifItoa(r)
+		}
+	}
+	verifapi.Witness("C19.rows-that-differ", rowsDiff)
+	verifapi.Classify("C19/output-depends-on-config-file-layout/" + name + "/rows" + rowsDiff)
 	verifapi.Assert(outRef == outOther, "C19-same-output")
 }
 
